@@ -263,12 +263,16 @@ def run(chk):
     # ---------------- 1. design checks (started now, collected at the end; they run beside the executions)
     if quick:
         designs = [
-            ('framing', 1, space(methods=('GET', 'HEAD'), statuses=(200, 204), interims=(0, 1),
-                                 te=ALL['te'], cl=ALL['cl'], bodies=(0, 1, 2), split=(2,), tr=(True,)), 'all'),
-            ('format', 1, space(te=('none', 'chunked', 'Chunked'), cl=('none', 'exact'), conn=ALL['conn'], ver=ALL['ver'],
-                                fmt=ALL['fmt'], bodies=(2, 13), ext=(True,), tr=(True,), sclose=(False, True)), 'none'),
-            ('persist', 2, space(statuses=(200, 204), interims=(0, 1), te=('none', 'chunked'), cl=('none', 'exact', 'smaller'),
-                                 conn=('none', 'close'), bodies=(1,), sclose=(False, True)), 'none'),
+            ('framing', 1, space(methods=('GET', 'HEAD'), statuses=(200, 204), interims=(0, 1), te=ALL['te'], cl=ALL['cl'],
+                                 bodies=(0, 2), split=(2,), tr=(True,)), 'none'),
+            ('trunc', 1, space(te=('none', 'chunked'), cl=('none', 'exact', 'larger', 'smaller'), bodies=(2,), split=(2,),
+                               tr=(True,)), 'all'),
+            ('format', 1, space(te=('none', 'chunked', 'Chunked'), cl=('none', 'exact'), conn=('none', 'keep-alive'),
+                                ver=ALL['ver'], fmt=ALL['fmt'], bodies=(13,), ext=(True,), tr=(True,), sclose=(False, True)),
+             'none'),
+            ('persist', 2, space(interims=(0, 1), cl=('exact', 'smaller'), bodies=(1,)), 'none'),
+            ('persist-chunked', 2, space(interims=(0, 1), te=('none', 'chunked'), cl=('exact',), conn=('none', 'close'),
+                                         bodies=(1,)), 'none'),
         ]
     else:
         designs = [
@@ -287,7 +291,7 @@ def run(chk):
     pool = ThreadPoolExecutor(max_workers=6)
     workers = 4 if quick else 6
     dfut = [(name, NX, sp, tr, pool.submit(tlc.run_tlc, 'HttpWire', design_cfg(NX, sp, fix, tr, invs), workers=workers,
-                                           timeout=3000, coverage=(name == 'framing'), heap='4g'))
+                                           timeout=3000, coverage=(name in ('framing', 'trunc')), heap='4g'))
             for (name, NX, sp, tr) in designs]
 
     # ---------------- 2. scenarios on the real code
@@ -396,7 +400,11 @@ def run(chk):
     for name, NX, sp, tr, fut in dfut:
         res = fut.result()
         chk.design('HttpWire[%s,NX=%d,trunc=%s]' % (name, NX, tr), res, constants=dict(NX=NX, trunc=tr, **{k: list(v) for k, v in sp.items()}),
-                   expect_actions=ACTIONS if name == 'framing' else None)
+                   expect_actions=None)
+    taken = set(a.split('.')[-1] for a, n in chk.coverage_actions.items() if n > 0)
+    missing = [a for a in ACTIONS if a not in taken]
+    if missing:
+        raise tlc.TLCError('vacuity guard: actions never taken in any design check: %s' % missing)
     pool.shutdown()
     chk.constants = {'design': [dict(name=n, NX=NX, trunc=tr, **{k: list(v) for k, v in sp.items()}) for (n, NX, sp, tr) in designs],
                      'generation_space': {k: list(v) for k, v in ALL.items()}}
